@@ -222,12 +222,15 @@ impl<S: Storage> Builder<S> {
                     .map(|id| self.node(*id).as_column())
                     .collect_vec();
                 // analyze range filter
+                let cond = filter;
+                let mut cond_is_range = self.node(cond) == &Expr::true_();
                 let filter = {
                     use std::ops::Bound;
                     let mut egraph = egg::EGraph::new(ExprAnalysis::default());
                     let root = egraph.add_expr(&self.recexpr(filter));
                     let expr: Option<crate::storage::KeyRange> =
                         egraph[root].data.range.clone().map(|(_, r)| r);
+                    cond_is_range |= expr.is_some();
                     if matches!(
                         expr,
                         Some(crate::storage::KeyRange {
@@ -269,13 +272,23 @@ impl<S: Storage> Builder<S> {
                     }
                     .execute()
                 } else {
-                    TableScanExecutor {
+                    let scan = TableScanExecutor {
                         table_id,
                         columns,
                         filter,
                         storage: self.storage.clone(),
                     }
-                    .execute()
+                    .execute();
+                    if cond_is_range {
+                        scan
+                    } else {
+                        // The pushed-down condition is no longer a key range (e.g. `a > 1 and
+                        // a < 1` simplified to `false`), so the storage can't apply it.
+                        FilterExecutor {
+                            condition: self.resolve_column_index(cond, id),
+                        }
+                        .execute(scan)
+                    }
                 }
             }
 
